@@ -220,6 +220,7 @@ type World struct {
 	prefillN   int
 	muOwner    map[*sync.Mutex][2]int // poolMu address -> (instance, incarnation)
 	bulkDone   bool
+	noYield    bool
 	admChecked int
 	bulkOK, bulkErr int
 	prefillItems []*Item
@@ -394,8 +395,8 @@ func (w *World) apply(inst *Instance, inc int, kind, key string, p *pendingOp, e
 // yield is ctlog.VerifYield for the current run: the calling goroutine is about
 // to take poolMu; park it and let the scheduler decide when it goes on.
 func (w *World) yield(mu *sync.Mutex) {
-	if !w.prof.Yield || w.auto {
-		return
+	if !w.prof.Yield || w.auto || w.noYield {
+		return // noYield: the scheduler goroutine itself is calling into the log
 	}
 	w.smu.Lock()
 	o, ok := w.muOwner[mu]
